@@ -117,6 +117,25 @@ def helper_range_checks(ctx, rule):
     ctx.ob(rule, fi, ok, "bytes2integer is int.from_bytes(data, 'big', signed=signed)", key="bytes2integer conversion")
 
 
+def macro_param_flow(ctx, rule):
+    """Every parameter of a factory function (macro) reaches the construct it returns -- through the constructor term, an attribute set on the
+    result, or a closure patched onto it.  A parameter that is only validated and then dropped (e.g. a padding pattern) silently changes the format."""
+    M = ctx.model
+    n = 0
+    for name, mf in sorted(M.macros().items()):
+        ps = [p for p in paths_of(ctx, mf) if p.returns]
+        a = mf.node.args
+        params = [x.arg for x in a.posonlyargs + a.args + a.kwonlyargs] + ([a.vararg.arg] if a.vararg else []) + ([a.kwarg.arg] if a.kwarg else [])
+        cl_names = {nd.id for cl in M.closures(mf) for nd in ast.walk(cl.node) if isinstance(nd, ast.Name)}
+        for prm in params:
+            is_p = lambda x: x[0] == "param" and x[1].lstrip("*") == prm
+            in_ret = any(any(is_p(x) for x in N.walk(p.retval or ())) for p in ps)
+            in_attr = any(e.kind in ("SETATTR", "ATTRSET") and any(isinstance(v, tuple) and any(is_p(x) for x in N.walk(v)) for v in e.a.values()) for p in ps for e in p.events)
+            n += 1
+            ctx.ob(rule, mf, bool(ps) and (in_ret or in_attr or prm in cl_names), "%s(..., %s, ...): the parameter reaches the construct the macro returns" % (name, prm), key="%s param %s" % (name, prm))
+    return n
+
+
 def unit_table_check(ctx, rule):
     """possiblestringencodings gives every supported encoding its code-unit width (the width of the terminator CString looks for)."""
     M = ctx.model
@@ -214,6 +233,7 @@ def run(ctx):
 
     # ---------------------------------------------------------------- R2
     unit_table_check(ctx, "C03.R2")
+    macro_param_flow(ctx, "C03.R2")
     fi = M.function("encodingunit")
     paths = paths_of(ctx, fi)
     rets = [p for p in paths if p.returns]
@@ -279,7 +299,14 @@ def run(ctx):
             ok = bool(bad) and all(p.outcome[0] == "raise" and p.outcome[1].get("cls") == "RangeError" and not p.of("SUB", "READ", "WRITE") for p in bad) \
                 and all(N.mk_cmp(">=", cnt, N.const(0)) in p.guards() for p in paths if p.returns)
             ctx.ob("C03.R4", fi, ok, "%s.%s rejects a negative count with RangeError before touching the stream" % (cls, meth), key="%s %s negative count" % (cls, meth))
-    ctx.floor("C03.R4", 14)
+    # values the reference rejects are rejected *as ConstructErrors* on the build side of the numeric classes: every foreign raiser
+    # (struct.pack: struct.error and, for floats too large for e/f, OverflowError; the range ValueError of the integer helpers) is translated
+    from . import C06
+    esc = C06.escaping(ctx, summariser(ctx))
+    for cls in ("FormatField", "BytesInteger", "BitsInteger", "VarInt", "ZigZag"):
+        fi = M.method(cls, "_build")
+        C06.check_foreign(ctx, fi, cls, esc, rule="C03.R4")
+    ctx.floor("C03.R4", 18)
     # ---------------------------------------------------------------- R6 label tables (shared with C13.R4)
     from . import C13
     C13.flag_test(ctx, "C03.R6")
